@@ -117,6 +117,9 @@ func (ArchLinux) Package(info *nfpm.Info, w io.Writer) error {
 		return fmt.Errorf("invalid platform: %s", info.Platform)
 	}
 	info = ensureValidArch(info)
+	// .MTREE and .PKGINFO state times in whole seconds, while archive/tar rounds
+	// a header time to the nearest second: cut all times to whole seconds
+	info.MTime = info.MTime.Truncate(time.Second)
 
 	err := nfpm.PrepareForPackager(info, packagerName)
 	if err != nil {
@@ -183,6 +186,9 @@ func createFilesInTar(info *nfpm.Info, tw *tar.Writer) ([]MtreeEntry, int64, err
 
 	for _, content := range info.Contents {
 		content.Destination = files.AsRelativePath(content.Destination)
+		if content.FileInfo != nil {
+			content.FileInfo.MTime = content.FileInfo.MTime.Truncate(time.Second)
+		}
 
 		switch content.Type {
 		case files.TypeDir, files.TypeImplicitDir:
